@@ -82,6 +82,19 @@ def generate(tier, rng):
                             continue
                         body = "{%d..%d%s}" % (m, nn, "" if s == "-" else ".." + s)
                         cases.append(Case("xrange", [toks([("", pre + body + post)]), "c12r", str(m), str(nn), s, hx(pre), hx(post)], {"gen": "r"}))
+    # wide spans (the two bounds further apart than an i32 can hold) walked with a step that keeps the sequence short
+    wide = [-2147483648, -2147483647, -2000000000, -1, 0, 1, 2000000000, 2147483646, 2147483647]
+    for m in wide:
+        for nn in wide:
+            span = abs(m - nn)
+            if span < 10**9:
+                continue
+            for s in ["1000000000", "2147483647", "2000000000", "715827883"]:
+                if span // int(s) > 40:
+                    continue
+                for pre, post in [("", ""), ("x", "y")]:
+                    body = "{%d..%d..%s}" % (m, nn, s)
+                    cases.append(Case("xrange", [toks([("", pre + body + post)]), "c12r", str(m), str(nn), s, hx(pre), hx(post)], {"gen": "rw"}))
     for s in gens.all_strings(["{", "}", ".", "1", "-", "a"], 6 if tier == "quick" else 7, 1):
         cases.append(Case("xrange", [toks([("", s)])], {"gen": "e"}))
     # tilde
